@@ -62,6 +62,7 @@ func c23Run(c *Ctx) {
 	cfg := simnet.Config{Fragment: c.F.Draw(4) != 0, LatencyMax: time.Duration(c.F.Draw(3)) * time.Millisecond}
 	nw := simglue.EnableNet(c.F, cfg)
 	defer simglue.DisableNet()
+	c.Comp = "server-or-client-goroutine"
 	srv, err := simstream.NewEchoServer("127.0.0.1:7100", maxFrame, 0, nil)
 	if err != nil {
 		c.Fail("server-start-failed", "ProtoServer", "%v", err)
@@ -447,7 +448,7 @@ func c24Run(c *Ctx) {
 }
 
 func init() {
-	Register(&Scenario{Prop: "C23", Name: "frames-over-stream", Quick: 3000, Thorough: 300000,
+	Register(&Scenario{Prop: "C23", Name: "frames-over-stream", Quick: 3000, Thorough: 300000, PanicClass: "decode-panic",
 		EstSteps: 1500, MaxSteps: 400000, MaxIdle: time.Hour, Real: strReal, Stub: strStub, Run: c23Run})
 	Register(&Scenario{Prop: "C24", Name: "compression-transparent", Quick: 1500, Thorough: 150000,
 		EstSteps: 1500, MaxSteps: 400000, MaxIdle: time.Hour, Real: strReal, Stub: strStub, Run: c24Run})
